@@ -42,6 +42,8 @@ var registry = map[string]reflect.Type{
 	"G2":     reflect.TypeOf(fam.G2{}),
 	"G1":     reflect.TypeOf(fam.G1{}),
 	"ONest":  reflect.TypeOf(fam.ONest{}),
+	"Unit":   reflect.TypeOf(fam.Unit(0)),
+	"UHold":  reflect.TypeOf(fam.UHold{}),
 	"Alias":  reflect.TypeOf(fam.Alias{}),
 	"Alias2": reflect.TypeOf(fam.Alias2{}),
 }
